@@ -6,6 +6,7 @@ Protocol handler of family `c04`.
   tev   ::= a1 | a0 | r | (k op) | i | t | x          (logged writer lifetime)
   step  ::= l | r | (k op) | i | t | x                (script)
   c04 discipline (tev*)                  -> 1 | 0
+  c04 withblock nops n m bodyRaises commitFails -> (step*)   (the script of `withBlock`, as the code is)
   c04 exec gen (ops*) ((step*)*) (sched*) -> holder gen (ops) (commits) (failed*) (holds*)
 -/
 namespace WM.Drv.C04
@@ -30,6 +31,14 @@ def step? : SExp → Option Step
   | .list [.atom "k", op] => op.nat?.map .work
   | _ => none
 
+def showStep : Step → String
+  | .tryLock => "l"
+  | .readToc => "r"
+  | .io => "i"
+  | .writeToc => "t"
+  | .release => "x"
+  | .work op => s!"(k {op})"
+
 def handle : List SExp → String
   | [.atom "discipline", evs] =>
     match evs.listOf? tev? with
@@ -39,6 +48,11 @@ def handle : List SExp → String
     match st.listOf? step? with
     | some l => showBool (LockDiscipline l)
     | none => "bad-op"
+  | [.atom "withblock", k, n, m, br, cf] =>
+    match k.nat?, n.nat?, m.nat?, br.nat?, cf.nat? with
+    | some k, some n, some m, some br, some cf =>
+      showList showStep (withBlock (List.replicate k 1) n m (br != 0) (cf != 0) true)
+    | _, _, _, _, _ => "bad-op"
   | [.atom "exec", g, ops, scripts, sched] =>
     match g.nat?, ops.natList?, scripts.listOf? (SExp.listOf? step?), sched.natList? with
     | some g0, some o0, some scs, some sc =>
